@@ -608,4 +608,97 @@ theorem sameTlsSecrets_append (a b c : List Key) (h : SameTlsSecrets a b) : Same
 
 end C09
 
+/-! ### the key-log file as lines (`C09Found.fileText`) in the vocabulary of `Spec.NssKeylog` -/
+
+section FileText
+open TLX.Keylog TLX.Spec.NssKeylog TLX.Props.C09Found TLX.Lemmas.Keylog TLX.Lemmas.C01Rfc
+
+theorem stripCR_of_not_mem (l : Str) (h : 13 ∉ l) : stripCR l = l := by
+  unfold stripCR
+  split
+  · rename_i hl
+    obtain ⟨ys, rfl⟩ := List.getLast?_eq_some_iff.mp hl
+    exact absurd (by simp) h
+  · rfl
+
+theorem stripCR_snoc (l : Str) : stripCR (l ++ [13]) = l := by
+  simp [stripCR]
+
+theorem lines_fileText (ls : List (FLine × Bool)) (hwf : ∀ x ∈ ls, x.1.WF) :
+    lines (fileText ls) = ls.map (·.1.text) ++ [[]] := by
+  unfold lines
+  rw [splitLF_eq]
+  induction ls with
+  | nil => simp [fileText, splitOn, stripCR]
+  | cons x rest ih =>
+    obtain ⟨l, crlf⟩ := x
+    obtain ⟨h10, h13⟩ := text_no_eol l (hwf (l, crlf) (by simp))
+    have ih := ih (fun y hy => hwf y (by simp [hy]))
+    cases crlf with
+    | false =>
+      simp only [fileText, Bool.false_eq_true, if_false, List.append_assoc, List.singleton_append]
+      rw [splitOn_append, splitOn_of_not_mem 10 _ h10, List.map_append, ih]
+      simp [stripCR_of_not_mem _ h13]
+    | true =>
+      simp only [fileText, if_true, List.append_assoc]
+      have : l.text ++ ([13, 10] ++ fileText rest) = (l.text ++ [13]) ++ 10 :: fileText rest := by simp
+      rw [this, splitOn_append, splitOn_of_not_mem 10 _ (by simp [h10]), List.map_append, ih]
+      simp [stripCR_snoc]
+
+theorem hasTriple_of_line (ls : List (FLine × Bool)) (hwf : ∀ x ∈ ls, x.1.WF) (tr : Triple) (hc hv : Str) (crlf : Bool)
+    (hm : (FLine.key tr hc hv, crlf) ∈ ls) : HasTriple (fileText ls) tr := by
+  refine ⟨(FLine.key tr hc hv).text, ?_, hc, hv, hwf _ hm⟩
+  rw [lines_fileText ls hwf]
+  exact List.mem_append_left _ (List.mem_map.mpr ⟨_, hm, rfl⟩)
+
+/-- **`OnlySecret` IS C09's consistency**: in a key-log file that is consistent for the client random (one secret per
+    label), a line `label cr secret` is the only secret under that label and client random. -/
+theorem onlySecret_of_consistent (ls : List (FLine × Bool)) (hwf : ∀ x ∈ ls, x.1.WF) (cr : List Nat)
+    (hcons : ConsistentFor cr (fileText ls)) (label secret : List Nat) (hhas : HasLine ls label cr secret) :
+    OnlySecret ls label cr secret := by
+  intro tr hc hv crlf hm hl hcr
+  obtain ⟨hc0, hv0, crlf0, hm0⟩ := hhas
+  exact hcons tr ⟨label, cr, secret⟩ (hasTriple_of_line ls hwf tr hc hv crlf hm)
+    (hasTriple_of_line ls hwf _ hc0 hv0 crlf0 hm0) hcr rfl hl
+
+/-- a file of well-formed lines is a well-formed key log in the sense of C09 -/
+theorem wellFormed_fileText (ls : List (FLine × Bool)) (hwf : ∀ x ∈ ls, x.1.WF) : WellFormed (fileText ls) := by
+  intro l hl
+  rw [lines_fileText ls hwf] at hl
+  rcases List.mem_append.mp hl with hl | hl
+  · obtain ⟨x, hx, rfl⟩ := List.mem_map.mp hl
+    refine ⟨(text_no_eol x.1 (hwf x hx)).2, ?_⟩
+    have w := hwf x hx
+    obtain ⟨fl, b⟩ := x
+    cases fl with
+    | key tr hc hv => exact .inl ⟨tr, hc, hv, w⟩
+    | other s => exact .inr w.2.2
+  · simp only [List.mem_singleton] at hl
+    subst hl
+    exact ⟨by simp, .inr not_looks_nil⟩
+
+theorem crOk_cons_ne (c : Nat) (t : Str) (hc : c ≠ 13) (h : CrOk t) : CrOk (c :: t) := by
+  unfold CrOk
+  split <;> simp_all
+
+theorem crOk_append_lf (l rest : Str) (h : 13 ∉ l) (hr : CrOk rest) (crlf : Bool) :
+    CrOk (l ++ (if crlf then [13, 10] else [10]) ++ rest) := by
+  induction l with
+  | nil => cases crlf <;> simpa [CrOk] using hr
+  | cons c cs ih =>
+    have hc : c ≠ 13 := fun e => h (by simp [e])
+    have := ih (fun hm => h (by simp [hm]))
+    simp only [List.cons_append, List.append_assoc] at this ⊢
+    exact crOk_cons_ne c _ hc this
+
+/-- … and every CR in it is followed by LF -/
+theorem crOk_fileText (ls : List (FLine × Bool)) (hwf : ∀ x ∈ ls, x.1.WF) : CrOk (fileText ls) := by
+  induction ls with
+  | nil => simp [fileText, CrOk]
+  | cons x rest ih =>
+    obtain ⟨l, crlf⟩ := x
+    exact crOk_append_lf _ _ (text_no_eol l (hwf (l, crlf) (by simp))).2 (ih (fun y hy => hwf y (by simp [hy]))) crlf
+
+end FileText
+
 end TLX.Lemmas.ExportSeg
